@@ -36,6 +36,61 @@ def base_type_member_access(args):
     return False, "member access correct for p_depth 0..4 x extra_deref 0..3"
 
 
+@driver
+def most_accurate_type(args):
+    import itertools
+    import func_adl_xAOD.common.cpp_types as ctyp
+    from func_adl_xAOD.common.utils import most_accurate_type as mat
+    rank = {"int": 0, "float": 1, "double": 2}
+    for n in (1, 2, 3):
+        for kinds in itertools.product(["int", "float", "double"], repeat=n):
+            ts = [ctyp.terminal(k) for k in kinds]
+            r = mat(ts)
+            if not any(r is t for t in ts):
+                return True, "most_accurate_type(%r) returned an object that is not in the list" % (kinds,)
+            if rank[r.type] < max(rank[k] for k in kinds):
+                return True, "most_accurate_type(%r) returned %s, not the widest kind" % (list(kinds), r.type)
+    for bad in ([], ["bool"], ["int", "string"]):
+        try:
+            mat([ctyp.terminal(k) for k in bad])
+            return True, "most_accurate_type(%r) returned normally, expected AssertionError" % (bad,)
+        except AssertionError:
+            pass
+    return False, "widest member returned for all kind lists up to length 3"
+
+
+def _visitor():
+    from func_adl_xAOD.atlas.xaod.query_ast_visitor import atlas_xaod_query_ast_visitor
+    return atlas_xaod_query_ast_visitor()
+
+
+@driver
+def visit_constant(args):
+    """args: {"value": python literal as repr string, "expect": "int32"|"string_ok"|"finite"}"""
+    import ast
+    value = eval(args["value"], {"__builtins__": {}}, {"inf": float("inf"), "nan": float("nan")})
+    v = _visitor()
+    node = ast.Constant(value=value)
+    try:
+        v.visit_Constant(node)
+    except ValueError as e:
+        return False, "refused: %s" % e
+    rep = node.rep
+    text, kind = rep.as_cpp(), rep.cpp_type().type
+    exp = args.get("expect")
+    if exp == "int32":
+        if kind == "int" and not (-2**31 <= value < 2**31):
+            return True, "ast.Constant(%r) is rendered as %s and declared C++ `int`, which cannot hold it" % (value, text)
+    if exp == "string_ok":
+        body = text[1:-1]
+        if any(c in body for c in '"\\\n\r'):
+            return True, "ast.Constant(%r) is rendered as the C++ literal %s (quote / backslash / line break not representable this way)" % (value, text)
+    if exp == "finite":
+        if text in ("inf", "-inf", "nan"):
+            return True, "ast.Constant(%s) is rendered as the C++ text `%s`, which is not a floating literal" % (args["value"], text)
+    return False, "ok: %s : %s" % (text, kind)
+
+
 def main():
     name = sys.argv[1]
     args = json.loads(sys.argv[2]) if len(sys.argv) > 2 else {}
